@@ -5,5 +5,5 @@ From Coq Require Import String.
 From QSCGen Require Import G_pins.
 Open Scope string_scope.
 
-Lemma pin_fourier_interpolation_current : pin_fourier_interpolation = "d3685dd09167ab5c2b2f143669d587eba0ca069fefa7306d40ce9b075f93837b".
+Lemma pin_fourier_interpolation_current : pin_fourier_interpolation = "b4b85c9e5e27ff05909cab74d5b582479310708243fb01c9bdc751fa661fb98f".
 Proof. reflexivity. Qed.
